@@ -301,14 +301,14 @@ func staticRule() ([]engine.Failure, map[string]any) {
 	_ = allowed
 	sort.Strings(scanned)
 	cov["static_rule"] = map[string]any{
-		"kind":                "auxiliary, not model checking: go/parser + go/types scan (dependency types from `go list -export` export data)",
-		"packages":            scanned,
-		"files":               files,
-		"range_statements":    ranges,
-		"map_range_statements": mapRanges,
+		"kind":                         "auxiliary, not model checking: go/parser + go/types scan (dependency types from `go list -export` export data)",
+		"packages":                     scanned,
+		"files":                        files,
+		"range_statements":             ranges,
+		"map_range_statements":         mapRanges,
 		"map_ranges_collect_then_sort": sortedRanges,
-		"whitelisted":         "the map ranges in x/alliance/invariants.go (they only build the message of an already broken invariant)",
-		"rules":               "range over map-typed operand (not reported: body only appends to slices that the function sorts afterwards), time.Now/Since/Until (not reported: time.Now() passed straight to a telemetry call), math/rand or crypto/rand, go statements, select",
+		"whitelisted":                  "the map ranges in x/alliance/invariants.go (they only build the message of an already broken invariant)",
+		"rules":                        "range over map-typed operand (not reported: body only appends to slices that the function sorts afterwards), time.Now/Since/Until (not reported: time.Now() passed straight to a telemetry call), math/rand or crypto/rand, go statements, select",
 	}
 	if files == 0 {
 		fails = append(fails, fail("static-rule", "harness", "no source files scanned"))
@@ -380,7 +380,7 @@ func init() {
 			a1 := c01Alpha("thorough")
 			s1 := &engine.Scenario{
 				Property: "C19", Name: "c19-user-slash-reward", Cfg: world.DefaultConfig(), Stores: world.ModuleStores,
-				Seeds: [][]world.Op{{opDel(0, 0, "aaa", "10"), opDel(0, 1, "aaa", "7"), opDel(1, 0, "aaa", "3"), opDel(1, 1, "bbb", "10"), opBlock(1)}},
+				Seeds:      [][]world.Op{{opDel(0, 0, "aaa", "10"), opDel(0, 1, "aaa", "7"), opDel(1, 0, "aaa", "3"), opDel(1, 1, "bbb", "10"), opBlock(1)}},
 				ClassNames: classNames, Budgets: tierPick(tier, []int{2, 1, 1, 2, 0}, []int{3, 1, 1, 3, 0}), MaxDepth: tierPick(tier, 3, 5),
 				Ops: a1.Ops, Step: c19Step, SeedStep: true,
 				Expand:   func(x *engine.Exec) bool { return !x.Res.Rejected },
